@@ -29,6 +29,7 @@ func init() {
 }
 
 func runC15(c *engine.Ctx, tier string) {
+	listVisitsEveryCollection(c)
 	loopVarAddress(c)
 	identityComponents(c)
 	conditionalUpdates(c)
@@ -210,7 +211,7 @@ func conditionalUpdatesAs(c *engine.Ctx, id, onlyPkg string, min int) {
 func recordFieldOwnership(c *engine.Ctx) {
 	o := c.Custom("C15.2", "K-own(rhs)", "Version / Index / Revision of Transaction, Proposal, Configuration (v2, v3) are assigned only in their store package, from entry.Version / entry.Index (Revision: = 1 or ++)",
 		"record versions and log indexes come from the primitive only, so they only grow and an index is never reused")
-	defer o.Done(20)
+	defer o.Done(5)
 	owner := map[string][]string{
 		"config/v2.Transaction": {pkgStoreTxV2}, "config/v2.Proposal": {pkgStorePropV2}, "config/v2.Configuration": {pkgStoreCfgV2},
 		"config/v3.Transaction": {pkgStoreTxV3}, "config/v3.Configuration": {pkgStoreCfgV3}, "config/v3.TransactionID": {pkgStoreTxV3},
@@ -1258,6 +1259,74 @@ func identityComponents(c *engine.Ctx) {
 					if !f["Type"] || !f["Version"] {
 						o.Fail(&engine.Violation{Key: fi.Name() + "|name of " + base + " without its whole identity", Pos: c.P.Pos(call.Pos()), Func: fi.Name(),
 							Msg: types.ExprString(call) + " formats " + base + ".ID without " + base + ".Type and " + base + ".Version: two targets that differ only in what is left out share this name"})
+					}
+				}
+				return true
+			})
+		}
+	}
+}
+
+// listVisitsEveryCollection: C15.17 (finding F64). A store method that reads several collections in nested
+// loops (one log per target) must not leave the function when an INNER stream is exhausted: the end of one
+// collection is `break`, not `return`.
+func listVisitsEveryCollection(c *engine.Ctx) {
+	o := c.Custom("C15.17", "K-shape(nested end of stream)", "in the store packages, inside a loop nested in another loop, the branch taken on `err == io.EOF` does not return from the function",
+		"every record written is shown: a List that returns at the end of the first target's log never shows the transactions of the other targets")
+	defer o.Done(1)
+	for _, rel := range storePkgs {
+		pkg := c.P.Pkg(rel)
+		if pkg == nil {
+			continue
+		}
+		info := pkg.TypesInfo
+		for _, fi := range c.P.FuncsOf(pkg) {
+			var stack []ast.Node
+			ast.Inspect(fi.Decl.Body, func(n ast.Node) bool {
+				if n == nil {
+					stack = stack[:len(stack)-1]
+					return true
+				}
+				stack = append(stack, n)
+				if _, isLit := n.(*ast.FuncLit); isLit {
+					stack = stack[:len(stack)-1]
+					return false // a goroutine of its own: its loops are not nested in the caller's
+				}
+				ifs, ok := n.(*ast.IfStmt)
+				if !ok {
+					return true
+				}
+				be, ok := ast.Unparen(ifs.Cond).(*ast.BinaryExpr)
+				if !ok || be.Op != token.EQL {
+					return true
+				}
+				isEOF := func(e ast.Expr) bool {
+					sel, ok := ast.Unparen(e).(*ast.SelectorExpr)
+					if !ok {
+						return false
+					}
+					v, _ := info.Uses[sel.Sel].(*types.Var)
+					return v != nil && v.Pkg() != nil && v.Pkg().Path() == "io" && v.Name() == "EOF"
+				}
+				if !isEOF(be.X) && !isEOF(be.Y) {
+					return true
+				}
+				depth := 0
+				for _, a := range stack[:len(stack)-1] {
+					switch a.(type) {
+					case *ast.ForStmt, *ast.RangeStmt:
+						depth++
+					}
+				}
+				if depth < 2 {
+					return true
+				}
+				o.Site(c.P.Pos(ifs.Pos()) + " end of an inner stream in " + fi.Name())
+				o.Eval(1)
+				for _, st := range ifs.Body.List {
+					if r, ok := st.(*ast.ReturnStmt); ok {
+						o.Fail(&engine.Violation{Key: fi.Name() + "|return at the end of an inner stream", Pos: c.P.Pos(r.Pos()), Func: fi.Name(),
+							Msg: "the function returns when an inner stream (one of several collections read in the enclosing loop) is exhausted: the remaining collections are never read"})
 					}
 				}
 				return true
